@@ -21,6 +21,7 @@ vars == <<S, M, n, lastAct, hist>>
 
 SetSeq(s) == IF s = {} THEN <<>> ELSE LET RECURSIVE F(_) F(t) == IF t = {} THEN <<>> ELSE LET x == CHOOSE y \in t : TRUE IN <<x>> \o F(t \ {x}) IN F(s)
 MCfgV == [node |-> NodeCfg, peerOrder |-> PeerOrder, peers |-> PeerCfg, appOrder |-> AppOrder,
+          canon |-> IF "canon" \in DOMAIN P THEN P.canon ELSE <<>>,
           apps |-> [a \in Apps |-> [id |-> AppCfg[a].id, auth |-> AppCfg[a].auth, acct |-> AppCfg[a].acct,
                                     peers |-> SelectSeq(PeerOrder, LAMBDA p : p \in AppCfg[a].peers),
                                     realms |-> SetSeq(AppCfg[a].realms), kind |-> AppCfg[a].kind, handler |-> AppCfg[a].handler, max |-> AppCfg[a].max]]]
@@ -62,6 +63,9 @@ Msgs(c) ==
      THEN {Mk("CE", 257, TRUE, 1, 1, 0, h, "", 0, FALSE, TRUE, FALSE, aa[1], aa[2], FALSE)
              \* the registered id as authentication id, a foreign id, the registered id offered for accounting only
              : h \in Hosts, aa \in {<<<<RegApp>>, <<>>>>, <<<<77>>, <<>>>>, <<<<>>, <<RegApp>>>>}} ELSE {}) \cup
+  (IF "cerup" \in Alpha /\ "canon" \in DOMAIN P /\ S.conn[c].dir = "in" /\ S.conn[c].st = "CONNECTED" /\ S.conn[c].nodeName = ""
+     \* a CER whose Origin-Host spells a configured peer's name differently (upper case)
+     THEN {Mk("CE", 257, TRUE, 1, 1, 0, k, "", 0, FALSE, TRUE, FALSE, <<RegApp>>, <<>>, FALSE) : k \in DOMAIN P.canon} ELSE {}) \cup
   (IF "cerout" \in Alpha /\ S.conn[c].dir = "out" /\ S.conn[c].st = "CONNECTED"        \* a CER where the node expects the CEA
      THEN {Mk("CE", 257, TRUE, 1, 1, 0, S.conn[c].nodeName, "", 0, FALSE, TRUE, FALSE, <<RegApp>>, <<>>, FALSE)} ELSE {}) \cup
   (IF "dwr2" \in Alpha /\ c = 2 THEN {Mk("DW", 280, TRUE, 1, 1, 0, h, "", 0, FALSE, TRUE, FALSE, <<>>, <<>>, FALSE) : h \in sp} ELSE {}) \cup   \* only connection 2 speaks
